@@ -128,6 +128,28 @@ Definition run_batch (old : kvmap) (ops : list op) : tstate :=
   fold_left step ops (open_tree old).
 Definition contents (s : tstate) : kvmap := ts_tree s.
 
+(* Histories on ONE tree object that contain Commit attempts the node database
+   rejected inside Batch.Commit (version already finalized, root not following,
+   foreign namespace; badger.go:1019-1034, pathbadger.go:870-881).  commit.go
+   resets pendingWriteLog only after batch.Commit has succeeded (137-142) and
+   doCommit clears dirty flags only through the batch's on-commit hooks
+   (commit.go:172-175, 214-216, 236-240): a rejected attempt is the identity on
+   the tree and on its pending log. *)
+Inductive hop := HOp (o : op) | HRejected.
+Definition hstep (s : tstate) (h : hop) : tstate :=
+  match h with
+  | HOp o => step s o
+  | HRejected => s
+  end.
+Definition run_history (old : kvmap) (hs : list hop) : tstate :=
+  fold_left hstep hs (open_tree old).
+Fixpoint ops_of (hs : list hop) : list op :=
+  match hs with
+  | [] => []
+  | HOp o :: r => o :: ops_of r
+  | HRejected :: r => ops_of r
+  end.
+
 (* ---------- the write log ---------- *)
 (* writelog.LogEntry: Value == nil is a deletion (writelog.go:71-77) *)
 Definition entry := (bytes * option bytes)%type.
@@ -386,7 +408,7 @@ Fixpoint run_attempts (strict : bool) (fin : option N) (d : db kvmap) (l : list 
    database (stored roots) and the apply attempts made on it *)
 Record wcase := mkCase {
   c_old : kvmap;
-  c_ops : list op;
+  c_ops : list hop;          (* updates and rejected commit attempts since the last successful commit *)
   c_db2 : db kvmap;
   c_strict : bool;           (* the second database is pathbadger *)
   c_fin : option N;          (* last finalized version of the second database *)
@@ -403,7 +425,7 @@ Record wobs := mkObs {
 }.
 
 Definition run_case (c : wcase) : wobs :=
-  let s := run_batch (c_old c) (c_ops c) in
+  let s := run_history (c_old c) (c_ops c) in
   let wl := commit_writelog s in
   mkObs (sort_log wl)
         (map (fun q => match serve (fst (fst q)) (snd (fst q)) (snd q) wl with
